@@ -149,7 +149,7 @@ class ImplPlayer(object):
         return True
 
     def live(self):
-        return [j.bib for j in self.c.jumpers if not j.eliminated]
+        return [j.bib for j in self.c.jumpers if not getattr(j, 'eliminated', False)]
 
 
 class M(object):
